@@ -11,13 +11,20 @@ Oracle: ``refmodels/proxyproto.py`` -- a strict three-valued parser written from
 (well-formed -> exact address and exact consumption; malformed -> "invalid" address, or dropped
 for LOCAL, within 107 / 16+declared bytes; lenient spellings -> don't care, bound only).
 
-Short-read patterns: mode 'all' explores ALL segmentations.  It is made finite by merging on the
-canonicalised continuation: the key of a choice point is (bytes consumed, request, and every
-bytes/int/bytearray local of every frame between ``handle`` and ``recv_into`` plus the bytecode
-offsets) -- whatever the parser can still do depends on nothing else, and the key is computed from
-the running frames, not assumed.  Mode 'bounded' (reads larger than 48 bytes: UNIX blocks, large
-declared lengths) bounds the number of short reads (d) and, for requests above 16 bytes, offers
-the sizes {1..4, half, n-4..n-1}; it adds the one-byte-at-a-time pattern.
+Short-read patterns: mode 'all' explores ALL segmentations (the size of every read is a 'data'
+choice, enumerated without a budget).  It is made finite by merging on the canonicalised
+continuation: the key of a choice point is (bytes consumed, request size, and every *live*
+bytes/int/bytearray/str/None local of every frame between ``handle`` and ``recv_into`` plus the
+bytecode offsets) -- whatever the parser can still do depends on nothing else, and the key is
+computed from the running frames (liveness by a data-flow pass over the bytecode, exception edges
+included), not assumed.  Mode 'bounded' (a read larger than 48 bytes is expected: UNIX blocks, large
+declared lengths) bounds the number of short reads (d, 'sched' deviations) and, for requests above
+16 bytes, offers the sizes {1..4, half, n-4..n-1}; it adds the one-byte-at-a-time pattern.
+
+Findings on the unmodified library are reported under three signatures (see message texts):
+exception:ValueError / v1-bad-ip (a NUL byte inside a v1 address reaches inet_pton), and
+accepted-malformed / v2-bad-command, v2-bad-protocol (unassigned command or transport nibbles,
+which the spec tells receivers to reject, yield the decoded address instead of the invalid one).
 """
 import itertools
 import struct
@@ -49,7 +56,8 @@ RULE = ('base headers: v1 TCP4/TCP6 with every address of a boundary list x ever
         'and beyond; v2 {PROXY,LOCAL} x {INET,INET6,UNIX,UNSPEC} x {STREAM,DGRAM,(UNSPEC)} x declared '
         'length {exact, exact+1..8 TLV bytes, 0, exact-1} plus boundary addresses; each x every payload of '
         'the payload list x the mix-ins that apply (v1/auto, v2/auto; cross-fed to the wrong fixed-version '
-        'mix-in as malformed input).  Derived inputs: every single-byte corruption (every position x 8 '
+        'mix-in as malformed input); v1 lines with ports/addresses just outside the field ranges and small '
+        'deviations from the grammar.  Derived inputs: every single-byte corruption (every position x 8 '
         'values) and every truncation of the corruption bases; every value 0..255 of v2 bytes 12..15; '
         'every declared length (quick 0..320 + boundaries, thorough 0..65535) per family, complete and cut '
         'one byte short; every string of length <= 4 over {P,R,SP,CR,LF,NUL} x tails {EOF, payload, 130 '
